@@ -4,6 +4,9 @@ import Dawgs.Proofs.C14Csr
 import Dawgs.Proofs.C14Bfs
 import Dawgs.Proofs.C14Norm
 import Dawgs.Proofs.C14Seg
+import Dawgs.Proofs.C14TravInst
+import Dawgs.Proofs.C14Edges
+import Dawgs.Proofs.C14Dims
 set_option linter.unusedSimpArgs false
 set_option linter.unusedVariables false
 namespace Dawgs.C14
@@ -71,5 +74,18 @@ theorem bfs_of_presents (adj : Nat → List Nat) (g : G) (d : Dir) (hp : ∀ v w
 
 theorem length_eq_of_nodup_mem {a b : List Nat} (ha : a.Nodup) (hb : b.Nodup) (h : ∀ x, x ∈ a ↔ x ∈ b) : a.length = b.length :=
   ((List.perm_ext_iff_of_nodup ha hb).mpr h).length_eq
+
+theorem G.dropEdges_nil (g : G) : g.dropEdges [] = g := by
+  cases g; simp [G.dropEdges]
+
+theorem TS.build_deleted (ops : List Op) : (TS.build ops).deleted = [] := by
+  unfold TS.build
+  exact foldl_rel (fun (t : TS) (_ : Unit) => t.deleted = []) TS.step (fun u _ => u)
+    (fun a _ o h => by cases o <;> exact h) ops {} () rfl
+
+/-- the store without tombstones presents the graph itself -/
+theorem TS.adjacent_build_spec (ops : List Op) (v y : Nat) (d : Dir) :
+    y ∈ (TS.build ops).adjacent true v d ↔ y ∈ (G.ofOps ops).adj v d := by
+  rw [TS.adjacent_spec (TS.rel_build ops) true v y d (Or.inr rfl), TS.build_deleted, G.dropEdges_nil]
 
 end Dawgs.C14
